@@ -11,6 +11,9 @@ package main
 //                                                     (state = the variables assigned in the loop; the function gets a first
 //                                                     parameter `fuel : Nat`; the tie theorem is about every sufficient fuel)
 //   idx := strings.Split(id, "/"); v, _ := strconv.ParseInt(idx[k], 10, 64)     → the parameter id_k (the parsed field)
+//   str := strconv.FormatInt(int64(e), 4); for i, s := range strings.Split(str, "") { …; if c { break } }
+//                                                   → recursion over the list `fmtBase4 e` of digit values ('-' is −1);
+//                                                     `s == "2"` becomes `s = 2`, `break` returns the state
 // Result types: int64 → Int; bool → Bool; (int64, error) → Outcome Int; (int64, int64, error) → Outcome (Int × Int);
 // (error, bool) → Bool (the error value carries no information beyond the bool); tuples of int64 → products.
 // Anything else makes the translator REFUSE the function: it then emits `def Gen.<name>_untranslatable : String := "<why>"`
@@ -40,6 +43,7 @@ var targets = []target{
 	{"integrate", "HorizontalZoomMinMax"},
 	{"detector", "offsetFIndex"},
 	{"transform", "convertHorizontalIDToQuadkey"},
+	{"transform", "convertQuadkeyToHorizontalID"},
 }
 
 type retKind int
@@ -75,6 +79,10 @@ type translator struct {
 	loops     int               // loops translated so far in the current function
 	strParams map[string]int    // string parameter → number of '/'-separated fields read from it
 	splitVars map[string]string // slice variable → the string parameter it is the strings.Split(·, "/") of
+	fmtVars   map[string]string // string variable → Lean list of its characters' digit values (strconv.FormatInt(e, 4))
+	digitVars map[string]bool   // range value variables holding one character of such a string
+	breakRet  string            // inside a range loop: what `break` returns (the state tuple); "" elsewhere
+	usesFuel  bool              // the current function contains a counted loop (translated with fuel)
 }
 
 func (t *translator) failf(format string, a ...interface{}) {
@@ -215,7 +223,7 @@ func (t *translator) intExpr(e ast.Expr) string {
 		if s, ok := t.pow2Idiom(v); ok {
 			return s
 		}
-		if id, ok := v.Fun.(*ast.Ident); ok && id.Name == "int64" && len(v.Args) == 1 {
+		if id, ok := v.Fun.(*ast.Ident); ok && (id.Name == "int64" || id.Name == "int") && len(v.Args) == 1 {
 			return t.intExpr(v.Args[0])
 		}
 		name := exprStr(v.Fun)
@@ -260,6 +268,24 @@ func (t *translator) propExpr(e ast.Expr) string {
 		case token.LOR:
 			return "(" + t.propExpr(v.X) + " ∨ " + t.propExpr(v.Y) + ")"
 		case token.LSS, token.LEQ, token.GTR, token.GEQ, token.EQL, token.NEQ:
+			if v.Op == token.EQL || v.Op == token.NEQ {
+				// a character of a formatted number compared with a one-digit string
+				dv, lit := v.X, v.Y
+				if _, isLit := dv.(*ast.BasicLit); isLit {
+					dv, lit = lit, dv
+				}
+				if id, ok := dv.(*ast.Ident); ok && t.digitVars[id.Name] {
+					if bl, ok := lit.(*ast.BasicLit); ok && bl.Kind == token.STRING && len(bl.Value) == 3 && bl.Value[1] >= '0' && bl.Value[1] <= '9' {
+						eq := "="
+						if v.Op == token.NEQ {
+							eq = "≠"
+						}
+						return "(" + id.Name + " " + eq + " " + string(bl.Value[1]) + ")"
+					}
+					t.failf("a digit character is compared with %s", exprStr(lit))
+					return "True"
+				}
+			}
 			op := map[token.Token]string{token.LSS: "<", token.LEQ: "≤", token.GTR: ">", token.GEQ: "≥", token.EQL: "=", token.NEQ: "≠"}[v.Op]
 			return "(" + t.intExpr(v.X) + " " + op + " " + t.intExpr(v.Y) + ")"
 		}
@@ -392,7 +418,22 @@ func (t *translator) block(stmts []ast.Stmt, ind string, declared map[string]boo
 			}
 		case *ast.ForStmt:
 			sb.WriteString(t.forLoop(v, ind, declared))
+		case *ast.RangeStmt:
+			sb.WriteString(t.rangeLoop(v, ind, declared))
+		case *ast.BranchStmt:
+			if v.Tok == token.BREAK && v.Label == nil && t.breakRet != "" {
+				sb.WriteString(ind + "return " + t.breakRet + "\n")
+			} else {
+				t.failf("unsupported branch statement at line %d", fset.Position(s.Pos()).Line)
+			}
 		case *ast.AssignStmt:
+			// str := strconv.FormatInt(int64(e), 4): remembered as the list of its digit values, nothing emitted
+			if len(v.Lhs) == 1 && len(v.Rhs) == 1 {
+				if l, ok := t.fmtBase4(v.Rhs[0]); ok {
+					t.fmtVars[exprStr(v.Lhs[0])] = l
+					continue
+				}
+			}
 			// idx := strings.Split(id, "/") on a string parameter: remembered, nothing emitted
 			if len(v.Lhs) == 1 && len(v.Rhs) == 1 {
 				if call, ok := v.Rhs[0].(*ast.CallExpr); ok && exprStr(call.Fun) == "strings.Split" && len(call.Args) == 2 && exprStr(call.Args[1]) == `"/"` {
@@ -527,6 +568,16 @@ func (t *translator) block(stmts []ast.Stmt, ind string, declared map[string]boo
 				sb.WriteString(ind + name + " := " + name + " + " + rhs + "\n")
 			case token.SUB_ASSIGN:
 				sb.WriteString(ind + name + " := " + name + " - " + rhs + "\n")
+			case token.MUL_ASSIGN:
+				sb.WriteString(ind + name + " := " + name + " * " + rhs + "\n")
+			case token.QUO_ASSIGN:
+				sb.WriteString(ind + name + " := (Int.tdiv " + name + " " + rhs + ")\n")
+			case token.REM_ASSIGN:
+				sb.WriteString(ind + name + " := (Int.tmod " + name + " " + rhs + ")\n")
+			case token.SHL_ASSIGN:
+				sb.WriteString(ind + name + " := (" + name + " * 2 ^ ((" + rhs + " : Int)).toNat)\n")
+			case token.SHR_ASSIGN:
+				sb.WriteString(ind + name + " := (" + name + " >>> ((" + rhs + " : Int)).toNat)\n")
 			default:
 				t.failf("unsupported assignment operator")
 			}
@@ -591,6 +642,48 @@ func (t *translator) block(stmts []ast.Stmt, ind string, declared map[string]boo
 				sb.WriteString(ind + "else\n")
 				sb.WriteString(t.block([]ast.Stmt{el}, ind+"  ", declared))
 			}
+		case *ast.SwitchStmt:
+			// switch tag { case a, b: … default: … } without fallthrough → an if-chain on tag == a ∨ tag == b
+			if v.Init != nil || v.Tag == nil {
+				t.failf("unsupported switch at line %d", fset.Position(s.Pos()).Line)
+				continue
+			}
+			var clauses []*ast.CaseClause
+			var deflt *ast.CaseClause
+			okSw := true
+			for _, c := range v.Body.List {
+				cc := c.(*ast.CaseClause)
+				for _, st := range cc.Body {
+					if b, isB := st.(*ast.BranchStmt); isB && b.Tok == token.FALLTHROUGH {
+						okSw = false
+					}
+				}
+				if cc.List == nil {
+					deflt = cc
+				} else {
+					clauses = append(clauses, cc)
+				}
+			}
+			if !okSw {
+				t.failf("switch with fallthrough at line %d", fset.Position(s.Pos()).Line)
+				continue
+			}
+			cur := ind
+			for _, cc := range clauses {
+				var alts []string
+				for _, e := range cc.List {
+					alts = append(alts, t.propExpr(&ast.BinaryExpr{X: v.Tag, Op: token.EQL, Y: e}))
+				}
+				sb.WriteString(cur + "if " + strings.Join(alts, " ∨ ") + " then\n")
+				sb.WriteString(t.block(cc.Body, cur+"  ", declared))
+				sb.WriteString(cur + "else\n")
+				cur += "  "
+			}
+			if deflt != nil {
+				sb.WriteString(t.block(deflt.Body, cur, declared))
+			} else {
+				sb.WriteString(cur + "pure ()\n")
+			}
 		case *ast.IncDecStmt:
 			name := exprStr(v.X)
 			if _, isId := v.X.(*ast.Ident); !isId {
@@ -623,6 +716,10 @@ func (t *translator) function(fn *ast.FuncDecl, info fnInfo) string {
 	t.loops = 0
 	t.strParams = map[string]int{}
 	t.splitVars = map[string]string{}
+	t.fmtVars = map[string]string{}
+	t.digitVars = map[string]bool{}
+	t.breakRet = ""
+	t.usesFuel = false
 	for _, f := range fn.Type.Params.List {
 		ty := typeStr(f.Type)
 		for _, n := range f.Names {
@@ -652,7 +749,7 @@ func (t *translator) function(fn *ast.FuncDecl, info fnInfo) string {
 	body := t.block(fn.Body.List, "  ", map[string]bool{})
 	name := fn.Name.Name
 	var params []string
-	if t.loops > 0 {
+	if t.usesFuel {
 		params = append(params, "(fuel : Nat)")
 	}
 	for _, f := range fn.Type.Params.List {
@@ -679,6 +776,183 @@ func (t *translator) function(fn *ast.FuncDecl, info fnInfo) string {
 	// silence "unused mutable" by a final reference is unnecessary: Lean only warns
 	return t.aux.String() + fmt.Sprintf("/-- literal translation of `%s` (%s) -/\ndef %s %s : %s := Id.run do\n%s%s\n",
 		name, filepath.Base(fset.Position(fn.Pos()).Filename), name, strings.Join(params, " "), leanRet(info), pre.String(), body)
+}
+
+// fmtBase4: strconv.FormatInt(int64(e), 4) (or of a variable bound to it) as the Lean list of digit values
+func (t *translator) fmtBase4(e ast.Expr) (string, bool) {
+	if id, ok := e.(*ast.Ident); ok {
+		l, ok := t.fmtVars[id.Name]
+		return l, ok
+	}
+	c, ok := e.(*ast.CallExpr)
+	if !ok || exprStr(c.Fun) != "strconv.FormatInt" || len(c.Args) != 2 || exprStr(c.Args[1]) != "4" {
+		return "", false
+	}
+	return "(fmtBase4 " + t.intExpr(c.Args[0]) + ")", true
+}
+
+// rangeLoop: `for i, s := range strings.Split(<FormatInt(e, 4)>, "") { body }` — a walk over the characters of a base-4 number.
+// The loop becomes a structurally recursive auxiliary definition over the LIST of digit values; `break` returns the state.
+func (t *translator) rangeLoop(f *ast.RangeStmt, ind string, declared map[string]bool) string {
+	line := fset.Position(f.Pos()).Line
+	call, ok := f.X.(*ast.CallExpr)
+	if !ok || exprStr(call.Fun) != "strings.Split" || len(call.Args) != 2 || exprStr(call.Args[1]) != `""` {
+		t.failf("range at line %d is not over strings.Split(·, \"\")", line)
+		return ""
+	}
+	list, ok := t.fmtBase4(call.Args[0])
+	if !ok {
+		t.failf("range at line %d is not over the characters of strconv.FormatInt(·, 4)", line)
+		return ""
+	}
+	if f.Tok != token.DEFINE {
+		t.failf("range at line %d does not declare its variables", line)
+		return ""
+	}
+	bad := false
+	ast.Inspect(f.Body, func(n ast.Node) bool {
+		switch v := n.(type) {
+		case *ast.ReturnStmt, *ast.ForStmt, *ast.RangeStmt:
+			bad = true
+		case *ast.BranchStmt:
+			if v.Tok != token.BREAK || v.Label != nil {
+				bad = true
+			}
+		}
+		return true
+	})
+	if bad {
+		t.failf("range loop at line %d contains return/continue/goto or a nested loop", line)
+		return ""
+	}
+	idx, val := "idx_"+fmt.Sprint(line), "chr_"+fmt.Sprint(line)
+	if f.Key != nil && exprStr(f.Key) != "_" {
+		idx = exprStr(f.Key)
+	}
+	if f.Value != nil && exprStr(f.Value) != "_" {
+		val = exprStr(f.Value)
+	}
+	// state: variables of the enclosing scope assigned in the body, in declaration order
+	assigned := map[string]bool{}
+	local := map[string]bool{idx: true, val: true}
+	ast.Inspect(f.Body, func(n ast.Node) bool {
+		switch v := n.(type) {
+		case *ast.AssignStmt:
+			for _, l := range v.Lhs {
+				if id, ok := l.(*ast.Ident); ok && id.Name != "_" {
+					if v.Tok == token.DEFINE && !assigned[id.Name] {
+						local[id.Name] = true
+					} else if !local[id.Name] {
+						assigned[id.Name] = true
+					}
+				}
+			}
+		case *ast.IncDecStmt:
+			if id, ok := v.X.(*ast.Ident); ok && !local[id.Name] {
+				assigned[id.Name] = true
+			}
+		case *ast.DeclStmt:
+			if gd, ok := v.Decl.(*ast.GenDecl); ok {
+				for _, sp := range gd.Specs {
+					if vs, ok := sp.(*ast.ValueSpec); ok {
+						for _, nm := range vs.Names {
+							local[nm.Name] = true
+						}
+					}
+				}
+			}
+		}
+		return true
+	})
+	var state []string
+	stSeen := map[string]bool{}
+	for _, n := range t.scope {
+		if assigned[n] && !stSeen[n] && !t.bools[n] {
+			stSeen[n] = true
+			state = append(state, n)
+		}
+	}
+	for n := range assigned {
+		if !stSeen[n] {
+			t.failf("range loop at line %d assigns %s, which is not an int64 variable in scope", line, n)
+			return ""
+		}
+	}
+	if len(state) == 0 {
+		t.failf("range loop at line %d assigns nothing", line)
+		return ""
+	}
+	used := map[string]bool{}
+	ast.Inspect(f.Body, func(n ast.Node) bool {
+		if id, ok := n.(*ast.Ident); ok {
+			used[id.Name] = true
+		}
+		return true
+	})
+	var ro []string
+	roSeen := map[string]bool{}
+	for _, n := range t.scope {
+		if used[n] && !stSeen[n] && !roSeen[n] && !t.bools[n] && n != idx && n != val {
+			roSeen[n] = true
+			ro = append(ro, n)
+		}
+	}
+	t.loops++
+	lname := fmt.Sprintf("%s_loop%d", t.fnName, t.loops)
+	tuple := func(xs []string) string {
+		if len(xs) == 1 {
+			return xs[0]
+		}
+		return "(" + strings.Join(xs, ", ") + ")"
+	}
+	savedScope := append([]string(nil), t.scope...)
+	savedBreak := t.breakRet
+	t.scope = append(t.scope, idx)
+	t.digitVars[val] = true
+	t.breakRet = tuple(state)
+	inner := map[string]bool{}
+	for k := range declared {
+		inner[k] = true
+	}
+	body := t.block(f.Body.List, "    ", inner)
+	t.scope = savedScope
+	t.breakRet = savedBreak
+	delete(t.digitVars, val)
+	var a strings.Builder
+	a.WriteString(fmt.Sprintf("/-- the loop at line %d of `%s`: a walk over the characters of a base-4 number (digit values; `-` is −1), index `%s`, state %s; `break` returns the state -/\n", line, t.fnName, idx, tuple(state)))
+	a.WriteString("def " + lname)
+	for _, n := range ro {
+		a.WriteString(" (" + n + " : Int)")
+	}
+	a.WriteString(" : List Int → Int")
+	for range state {
+		a.WriteString(" → Int")
+	}
+	a.WriteString(" → " + strings.TrimSuffix(strings.Repeat("Int × ", len(state)), " × ") + "\n")
+	a.WriteString("  | [], _, " + strings.Join(state, ", ") + " => " + tuple(state) + "\n")
+	a.WriteString("  | " + val + " :: rest_chars, " + idx + ", " + strings.Join(state, ", ") + " => Id.run do\n")
+	for _, n := range state {
+		a.WriteString("    let mut " + n + " : Int := " + n + "\n")
+	}
+	if strings.TrimSpace(body) != "pure ()" {
+		a.WriteString(body)
+	}
+	a.WriteString("    return " + lname + " " + strings.Join(append(append([]string{}, ro...), "rest_chars", "("+idx+" + 1)"), " ") + " " + strings.Join(state, " ") + "\n\n")
+	t.aux.WriteString(a.String())
+	var sb strings.Builder
+	res := fmt.Sprintf("loop%d_res", t.loops)
+	sb.WriteString(ind + "let " + res + " := " + lname + " " + strings.Join(append(append([]string{}, ro...), list, "0"), " ") + " " + strings.Join(state, " ") + "\n")
+	for k, n := range state {
+		proj := res
+		if len(state) > 1 {
+			proj += strings.Repeat(".2", k)
+			if k < len(state)-1 {
+				proj += ".1"
+			}
+		}
+		sb.WriteString(ind + n + " := " + proj + "\n")
+	}
+	return sb.String()
 }
 
 // forLoop: `for init; cond; post { body }` whose body consists of supported int64 statements without return/break/continue.
@@ -761,6 +1035,26 @@ func (t *translator) forLoop(f *ast.ForStmt, ind string, declared map[string]boo
 	for _, n := range t.scope {
 		inScope[n] = true
 	}
+	{ // canonical order of the state: the order of declaration in the function (not the order of assignment inside the loop)
+		var ordered []string
+		for _, n := range t.scope {
+			if seen[n] {
+				dup := false
+				for _, o := range ordered {
+					dup = dup || o == n
+				}
+				if !dup {
+					ordered = append(ordered, n)
+				}
+			}
+		}
+		for _, n := range state {
+			if !inScope[n] {
+				ordered = append(ordered, n) // reported just below
+			}
+		}
+		state = ordered
+	}
 	for _, n := range state {
 		if !inScope[n] || t.bools[n] {
 			t.failf("loop at line %d assigns %s, which is not an int64 variable in scope", line, n)
@@ -789,6 +1083,7 @@ func (t *translator) forLoop(f *ast.ForStmt, ind string, declared map[string]boo
 		}
 	}
 	t.loops++
+	t.usesFuel = true
 	lname := fmt.Sprintf("%s_loop%d", t.fnName, t.loops)
 	tuple := func(xs []string) string {
 		if len(xs) == 1 {
